@@ -99,7 +99,11 @@ func (r *SwitchRouter) Validate(flow flows.Flow, exits []flows.Exit) error {
 		return fmt.Errorf("default category %s is not a valid category", r.defaultCategoryUUID)
 	}
 
-	for _, c := range r.cases {
+	for i, c := range r.cases {
+		if c == nil {
+			return fmt.Errorf("case %d is null", i)
+		}
+
 		// check each case points to a valid category
 		if !r.isValidCategory(c.CategoryUUID) {
 			return fmt.Errorf("case category %s is not a valid category", c.CategoryUUID)
